@@ -33,11 +33,17 @@ def string_to_node_contract(allow_eval=True):
             k_, e_ = z3.is_true(z3.simplify(kern.t)), z3.is_true(z3.simplify(ev.t))
             idx = {(False, True): 0, (False, False): 1, (True, True): 2, (True, False): 3}[(k_, e_)]
             return VFn(EXPR(z3.IntVal(idx), z3.BoolVal(False)))
+        def fnt(v):
+            if isinstance(v, VMaybeNone):
+                v = v.val
+            if not isinstance(v, VFn):
+                raise Unsupported("an opaque object is expected here: %r" % (v,))
+            return v.t
         eng.models["string_to_expr"] = m_string_to_expr
-        eng.models["DecoratedNode"] = lambda e, s, a, kw, node: VFn(NODE(a[0].t))
-        eng.models["check_operators"] = lambda e, s, a, kw, node: VBool(INB(a[0].t))
-        eng.methods["count_nodes"] = lambda e, s, recv, a, kw, node: VInt(COUNT(recv.t))
-        eng.methods["evalf"] = lambda e, s, recv, a, kw, node: VFn(z3.Function("evalf", Fn, Fn)(recv.t))
+        eng.models["DecoratedNode"] = lambda e, s, a, kw, node: VFn(NODE(fnt(a[0])))
+        eng.models["check_operators"] = lambda e, s, a, kw, node: VBool(INB(fnt(a[0])))
+        eng.methods["count_nodes"] = lambda e, s, recv, a, kw, node: VInt(COUNT(fnt(recv)))
+        eng.methods["evalf"] = lambda e, s, recv, a, kw, node: VFn(z3.Function("evalf", Fn, Fn)(fnt(recv)))
         c_, f_ = z3.Int("c!ax"), z3.Const("f!ax", Fn)
         eng.axioms.append(z3.ForAll([f_], COUNT(f_) >= 1, patterns=[COUNT(f_)]))
 
